@@ -9,16 +9,28 @@ Sub-checks
           strings, numbers and callables, evaluated under Fill and in every argument position (defaults of
           Coalesce / Match / Switch / Check / And / Or, Call args and kwargs, T call arguments, S(k=...),
           Assign value); in argument position also self-referential lists / dicts (direct and mutual cycles,
-          shared sub-containers)
+          shared sub-containers); the spec holding the literal stands bare or under an outer Auto / Fill / Match / Group
+          wrapper, and a constructed class puts a leaf whose value depends on the mode (Spec('name'),
+          Spec({'k': 'name'})) into the literal: an argument is read in the mode around the spec it belongs to -
+          also the default of Match(pattern, default=...), which is not part of the pattern (F60)
+  groupchain   inside Group (rows {'n': int, 'vals': [int..]}): Pipe steps, Switch keys, bucket key specs and aggregator
+          sub-specs that are mode wrappers - a nested Group (constructed class, F63), Auto, Fill, Match - followed in
+          the same chain by steps that collect ([..]), bucket ({key: ..}) or aggregate (Sum / Max / Min / Count) over
+          the items of the ENCLOSING Group, at top level / below a bucket / as a list element; below an aggregator
+          the later Sum() is a plain fold
 
-Oracle: ev() - the mode of a probe is that of its innermost syntactically enclosing wrapper; shape_ref().
+Oracle: ev() - the mode of a probe is that of its innermost syntactically enclosing wrapper; RefBuilder;
+GroupRun - a hand-written loop with one accumulator per collecting node and bucket path.
 """
 from hypothesis import strategies as st
 
 import glom
 from glom import (T, S, Spec, Val, Auto, Fill, Match, Coalesce, Switch, Pipe, Call, Check, And, Or, M, Assign,
                   GlomError, PathAccessError, MatchError, BadSpec)
+from glom import Sum
+from glom import grouping as gg
 from glom.grouping import Group
+from glom.reduction import Count
 
 from ..runner import Sub, Mismatch
 from .. import targets as tg
@@ -26,13 +38,22 @@ from .. import targets as tg
 PROPERTY = 'C08'
 RULE = ('modes: node trees of depth <= 4 over {probe str, probe dict, T, wrapper(Auto|Fill|Match|Group), tuple, Pipe, dict, '
         'Coalesce, Switch}; shape: literal container recipes of depth <= 4 x 13 positions (Fill + 12 argument positions), '
-        'cycles only in argument position. Non-trivial = a wrapper followed by a probe at the same chain level, or nested '
-        'wrappers of >= 2 different modes, or a cyclic literal.')
+        'cycles only in argument position, x outer wrapper {none, Auto, Fill, Match, Group}; groupchain: 0-4 rows x Group spec trees '
+        'of depth <= 3 over {[..], {key: ..}, Sum/Max/Min/Count, Sum(sub-spec), Pipe, Switch, T steps, callables, wrapper steps '
+        '(15 fixed Auto/Fill/Match wrappers, nested Group of a generated spec)}. Non-trivial = a wrapper followed by a probe at '
+        'the same chain level, or nested wrappers of >= 2 different modes, or a cyclic literal, or a mode-dependent leaf in a '
+        'literal, or (groupchain) a wrapper followed in its chain by an accumulating step with >= 2 rows.')
 ASSUMPTIONS = [
     'per-mode readings: Auto: string = path lookup, tuple = chain, dict = restructuring; Fill: containers rebuilt, strings literal; '
     'Match: == / positional tuple / dict pattern; Group: a bare string or a dict with string keys is a BadSpec',
     'Group wraps probes only; error outcomes are compared by category (PathAccessError / MatchError / BadSpec / other GlomError)',
     'Invoke.constants is literal by contract and Invoke.specs an ordinary spec: neither is an argument position',
+    'a Spec(...) leaf of an argument is an ordinary spec read in the mode in force around the spec the argument belongs to (bare = Auto); '
+    'under an outer Match / Group a Spec(\'name\') leaf therefore fails with MatchError / BadSpec; the default of Match(p, default=d) is '
+    'an argument of Match, not part of the pattern',
+    'groupchain: a tuple is a BadSpec in Group mode, so chains are Pipes, Switch cases and aggregator sub-specs; in a Pipe only the last '
+    'step collects / buckets / aggregates (what a step finds after a plain - non-wrapper - accumulating step is outside the statement); '
+    'First() only as the whole spec of a nested Group; nested Groups get non-empty lists of ints',
 ]
 
 
@@ -324,7 +345,7 @@ def upper(t):
 def gen_lit(draw, d, cyc_ok, depth_idx=0):
     S_ = st.sampled_from
     if d <= 0 or draw(st.integers(0, 9)) < 3:
-        k = draw(S_(['T', 'T', 'Spec', 'Val', 's', 'i', 'fn', 'none', 'Tpath']))
+        k = draw(S_(['T', 'T', 'Spec', 'Val', 's', 'i', 'fn', 'none', 'Tpath', 'Spec-str', 'Spec-dict', 'Auto-str', 'Fill-str']))
         if k == 's':
             return ['s', draw(S_(['a', 'x', 'a.b', '']))]
         if k == 'i':
@@ -338,7 +359,7 @@ def gen_lit(draw, d, cyc_ok, depth_idx=0):
         keys = draw(st.lists(S_(['x', 'y', 'z', 'Tkey', 'TupleKey', 'FsetKey']), min_size=n, max_size=n, unique=True))
         return ['dict', [[key, gen_lit(draw, d - 1, cyc_ok, depth_idx + 1)] for key in keys]]
     if kind in ('set', 'fset'):
-        return [kind, [draw(S_([['s', 'a'], ['i', 1], ['T-scalar'], ['Val', ['i', 7]], ['s', 'x']])) for _ in range(n)]]
+        return [kind, [draw(S_([['s', 'a'], ['i', 1], ['T-scalar'], ['Val', ['i', 7]], ['s', 'x'], ['Spec-str']])) for _ in range(n)]]
     items = [gen_lit(draw, d - 1, cyc_ok, depth_idx + 1) for _ in range(n)]
     if kind == 'list' and cyc_ok and draw(st.integers(0, 3)) == 0:
         items.insert(draw(st.integers(0, len(items))), ['cyc', draw(st.integers(0, depth_idx))])
@@ -349,12 +370,32 @@ POSITIONS = ['fill', 'coalesce-default', 'match-default', 'switch-default', 'che
              'call-arg', 'call-kwarg', 't-call-arg', 's-bind', 'assign-value', 'check-validate-default']
 
 
+OUTERS = ['none', 'none', 'auto', 'fill', 'match', 'group']
+MODAL = ('Spec-str', 'Spec-dict')
+
+
 def gen_shape(draw):
-    pos = draw(st.sampled_from(POSITIONS))
-    lit = gen_lit(draw, draw(st.sampled_from([1, 2, 3, 4])), pos != 'fill')
+    S_ = st.sampled_from
+    pos = draw(S_(POSITIONS + ['match-default']))
+    lit = gen_lit(draw, draw(S_([1, 2, 3, 4])), pos != 'fill')
     if lit[0] not in ('dict', 'list', 'tuple', 'set', 'fset'):
         lit = ['list', [lit]]
-    return {'position': pos, 'lit': lit}
+    outer = draw(S_(OUTERS))
+    if draw(S_([True, False, False])):
+        # constructed class: a leaf whose value depends on the mode it is evaluated in (Spec('name'), Spec({'k': 'name'}))
+        # somewhere in the literal - an argument is evaluated in the mode in force AROUND the spec it belongs to
+        leaf = [draw(S_(MODAL))]
+        if draw(S_([False, True])):
+            leaf = [draw(S_(['list', 'tuple'])), [leaf, ['s', 'name']]]
+        if lit[0] == 'dict':
+            lit = ['dict', [kv for kv in lit[1] if kv[0] != 'm'] + [['m', leaf]]]
+        elif lit[0] in ('set', 'fset'):
+            lit = [lit[0], lit[1] + [['Spec-str']]]
+        else:
+            items = list(lit[1])
+            items.insert(draw(S_(range(len(items) + 1))), leaf)
+            lit = [lit[0], items]
+    return {'position': pos, 'lit': lit, 'outer': outer}
 
 
 def shape_target():
@@ -377,6 +418,14 @@ class Builder(object):
             return T['n']
         if k == 'Spec':
             return Spec(T['name'])
+        if k == 'Spec-str':
+            return Spec('name')
+        if k == 'Spec-dict':
+            return Spec({'k': 'name'})
+        if k == 'Auto-str':
+            return Auto('name')
+        if k == 'Fill-str':
+            return Fill('name')
         if k == 'Val':
             return Val(tg.build(r[1]).obj)
         if k == 's' or k == 'i':
@@ -413,10 +462,24 @@ class Builder(object):
 
 
 class RefBuilder(object):
-    """the value the literal denotes for `target` in Fill mode / in argument position"""
-    def __init__(self, fill, target):
-        self.fill, self.target = fill, target
+    """the value the literal denotes for `target` in Fill mode / in argument position; `mode` is the mode in force
+    around the spec the literal is an argument of (or 'fill' for the Fill position): a Spec leaf is an ordinary spec
+    evaluated in that mode, a mode wrapper leaf brings its own"""
+    def __init__(self, fill, target, mode='auto'):
+        self.fill, self.target, self.mode = fill, target, mode
         self.stack = []
+
+    def modal(self, wrapped_dict):
+        t, mode = self.target, self.mode
+        if mode == 'auto':
+            return {'k': t['name']} if wrapped_dict else t['name']
+        if mode == 'fill':
+            return {'k': 'name'} if wrapped_dict else 'name'
+        if mode == 'match':
+            raise Err('MatchError')       # the target is neither == 'name' nor a dict with the one key 'k'
+        if mode == 'group':
+            raise Err('BadSpec')          # a bare string (also as a dict key spec) is no Group spec
+        raise ValueError(mode)
 
     def build(self, r):
         k = r[0]
@@ -429,6 +492,14 @@ class RefBuilder(object):
             return t['n']
         if k == 'Spec':
             return t['name']
+        if k == 'Spec-str':
+            return self.modal(False)
+        if k == 'Spec-dict':
+            return self.modal(True)
+        if k == 'Auto-str':
+            return t['name']
+        if k == 'Fill-str':
+            return 'name'
         if k == 'Val':
             return tg.build(r[1]).obj
         if k == 's' or k == 'i':
@@ -487,13 +558,21 @@ def iso(a, b, seen=None):
     return a == b
 
 
-def place(position, lit):
-    """(spec, extractor) putting the literal container into the given position"""
+def place(position, lit, outer='none'):
+    """(spec, extractor) putting the literal container into the given position, the whole under the mode wrapper `outer`"""
+    spec, extract = place_bare(position, lit, outer != 'none')
+    if outer != 'none':
+        spec = WRAPPERS[outer](spec)
+    return spec, extract
+
+
+def place_bare(position, lit, chained):
     first = lambda r: r
+    chain = Pipe if chained else (lambda *steps: steps)      # a tuple is a chain in Auto mode only
     if position == 'fill':
         return Fill(lit), first
     if position == 'coalesce-default':
-        return Coalesce('nope', default=lit), first
+        return Coalesce(T['nope'], default=lit), first
     if position == 'match-default':
         return Match(int, default=lit), first
     if position == 'switch-default':
@@ -513,9 +592,9 @@ def place(position, lit):
     if position == 't-call-arg':
         return T['f'](lit, q=lit), (lambda r: (r[0][0], r[1]['q']))
     if position == 's-bind':
-        return (S(v=lit), S.v), first
+        return chain(S(v=lit), S.v), first
     if position == 'assign-value':
-        return (Assign('slot', lit), T['slot']), first
+        return chain(Assign('slot', lit), T['slot']), first
     raise ValueError(position)
 
 
@@ -523,35 +602,63 @@ def has_cycle(r):
     return "'cyc'" in repr(r)
 
 
+def has_modal(r):
+    s = repr(r)
+    return "'Spec-str'" in s or "'Spec-dict'" in s
+
+
 def check_shape(recipe, ctx):
     pos, lit = recipe['position'], recipe['lit']
+    outer = recipe.get('outer', 'none')
     fill = pos == 'fill'
-    target = shape_target()
+    item = shape_target()
+    target = [item] if outer == 'group' else item        # Group evaluates its spec on every item: one item, the usual target
     literal = Builder(fill).build(lit)
-    expected = RefBuilder(fill, target).build(lit)
-    spec, extract = place(pos, literal)
-    ctx.label('position-' + pos)
+    # the mode a Spec leaf is read in: Fill's own for the Fill position, else the mode around the spec whose argument it is
+    mode = 'fill' if fill else 'auto' if outer == 'none' else outer
+    try:
+        expected = ('ok', RefBuilder(fill, item, mode).build(lit))
+    except Err as e:
+        expected = ('err', e.cat)
+    spec, extract = place(pos, literal, outer)
+    ctx.label('position-' + pos, 'outer-' + outer, 'exp-' + expected[0])
     cyc = has_cycle(lit)
+    modal = has_modal(lit)
     if cyc:
         ctx.label('cyclic')
-    ctx.nontrivial(cyc or len(repr(lit)) > 60)
-    where = 'position=%s literal=%r' % (pos, lit)
-    import sys
-    old = sys.getrecursionlimit()
+    if modal:
+        ctx.label('modal-leaf')
+        if not fill:
+            ctx.label('modal-leaf-in-argument')
+        if pos == 'match-default':
+            ctx.label('modal-leaf-in-match-default')
+            if outer in ('none', 'auto', 'fill'):
+                ctx.label('modal-leaf-in-match-default-ok')
+    ctx.nontrivial(cyc or modal or len(repr(lit)) > 60)
+    where = 'position=%s outer=%s literal=%r' % (pos, outer, lit)
     try:
         got = glom.glom(target, spec)
     except RecursionError:
         raise Mismatch('non-termination', '%s: RecursionError' % where)
+    except GlomError as e:
+        if expected == ('err', category(e)):
+            ctx.outcome([pos, outer, expected])
+            return
+        raise Mismatch('unexpected-error', '%s: expected %s, got %s: %s' % (
+            where, safe_repr(expected), type(e).__name__, str(e).splitlines()[-1][:200]))
     except Exception as e:
         raise Mismatch('unexpected-error', '%s: %s: %s' % (where, type(e).__name__, str(e).splitlines()[-1][:200]))
     got = extract(got)
+    if expected[0] == 'err':
+        raise Mismatch('missing-error', '%s: expected %s, got %s' % (where, expected[1], safe_repr(got)))
+    expected = expected[1]
     results = got if pos == 't-call-arg' else (got,)
     for g in results:
         if not iso(expected, g):
             raise Mismatch('shape', '%s: expected %s, got %s' % (where, safe_repr(expected), safe_repr(g)))
         if isinstance(g, (list, dict)) and g is literal:
             raise Mismatch('not-rebuilt', '%s: the result is the spec container itself' % where)
-    ctx.outcome([pos, safe_repr(expected)[:100]])
+    ctx.outcome([pos, outer, safe_repr(expected)[:100]])
 
 
 def safe_repr(v):
@@ -561,8 +668,433 @@ def safe_repr(v):
         return '<unprintable>'
 
 
+# ---------------------------------------------------------------------------
+# (iii) mode discipline inside Group: a mode wrapper (Group, Auto, Fill, Match) as a Pipe step / Switch key of a spec that an
+# enclosing Group evaluates per item, FOLLOWED by further Group-mode steps ([..] collects, {key: ..} buckets, Sum()/Max()/..
+# aggregate).  "Everything outside it (later ... Pipe steps, ... other Switch cases) is evaluated in the mode that was in
+# force before": the later step collects / buckets / aggregates over the items of the ENCLOSING Group, whatever the wrapper
+# before it did with the one item it saw.  (A tuple is no chain in Group mode - it is a BadSpec - so chains are Pipes, Switches
+# and the sub-spec of an aggregator.)
+#
+# value kinds (type-directed generation): row = {'n': int, 'vals': [int, ...]}, ints = non-empty list of ints, num, other
+
+def inc(x):
+    return x + 1
+
+
+def _same(k):
+    return k
+
+
+def _const(k):
+    return lambda _k: k
+
+
+# wrapper steps with a fixed inner spec: name -> (build, reference, accepted input kinds, output kind)
+def _match_fail(x):
+    raise Err('MatchError')
+
+
+WRAPSTEPS = {
+    'auto-vals':  (lambda: Auto('vals'),               lambda x: x['vals'],            ('row',), _const('ints')),
+    'auto-n':     (lambda: Auto('n'),                  lambda x: x['n'],               ('row',), _const('num')),
+    'auto-chain': (lambda: Auto(('vals', len)),        lambda x: len(x['vals']),       ('row',), _const('num')),
+    'auto-tuple-group': (lambda: Auto(('vals', Group(Sum()))), lambda x: sum(x['vals']), ('row',), _const('num')),
+    'auto-dict':  (lambda: Auto({'k': 'n'}),           lambda x: {'k': x['n']},        ('row',), _const('other')),
+    'auto-sum':   (lambda: Auto(sum),                  lambda x: sum(x),               ('ints',), _const('num')),
+    'auto-each':  (lambda: Auto([inc]),                lambda x: [v + 1 for v in x],   ('ints',), _const('ints')),
+    'auto-T':     (lambda: Auto(T),                    lambda x: x,                    ('row', 'ints', 'num', 'other'), _same),
+    'fill-T':     (lambda: Fill(T),                    lambda x: x,                    ('row', 'ints', 'num', 'other'), _same),
+    'fill-n':     (lambda: Fill(T['n']),               lambda x: x['n'],               ('row',), _const('num')),
+    'fill-list':  (lambda: Fill([T]),                  lambda x: [x],                  ('row', 'ints', 'num', 'other'), _const('other')),
+    'fill-str':   (lambda: Fill('vals'),               lambda x: 'vals',               ('row', 'ints', 'num', 'other'), _const('other')),
+    'match-row':  (lambda: Match({'n': int, 'vals': [int]}), lambda x: x,              ('row',), _same),
+    'match-ints': (lambda: Match([int]),               lambda x: x,                    ('ints',), _same),
+    'match-num':  (lambda: Match(int),                 lambda x: x,                    ('num',), _same),
+    'match-fail': (lambda: Match(str),                 _match_fail,                    ('row', 'ints', 'num'), _same),
+}
+# steps that are no wrappers and read the same in every mode: T expressions, and callables (called with the item in Group mode)
+PLAINSTEPS = {
+    't-vals': (lambda: T['vals'],  lambda x: x['vals'],  ('row',), _const('ints')),
+    't-n':    (lambda: T['n'],     lambda x: x['n'],     ('row',), _const('num')),
+    't-mod2': (lambda: T % 2,      lambda x: x % 2,      ('num',), _const('num')),
+    'fn-len': (lambda: len,        lambda x: len(x),     ('row', 'ints'), _const('num')),
+    'fn-inc': (lambda: inc,        lambda x: x + 1,      ('num',), _const('num')),
+    'fn-sum': (lambda: sum,        lambda x: sum(x),     ('ints',), _const('num')),
+}
+AGGS = {   # name -> (build, initial accumulator, step)
+    'sum':   (lambda: Sum(),   lambda: 0,    lambda acc, x: acc + x),
+    'max':   (lambda: gg.Max(), lambda: None, lambda acc, x: x if acc is None or x > acc else acc),
+    'min':   (lambda: gg.Min(), lambda: None, lambda acc, x: x if acc is None or x < acc else acc),
+    'count': (lambda: Count(), lambda: 0,    lambda acc, x: acc + 1),
+}
+_STOP = object()
+
+
+class GroupRun(object):
+    """one evaluation of Group(post) over `items`, as a hand-written loop: every collecting / bucketing / aggregating node of
+    the spec owns one accumulator per bucket path, which lives as long as this Group runs and is updated once per item the
+    node gets to see; the Group returns what its spec returned for the last item (for First: the first)"""
+    def __init__(self):
+        self.accs = {}
+
+    def run(self, post, items):
+        ret = {} if post[0] == 'dict' else [] if post[0] == 'list' else None
+        for x in items:
+            last, ret = ret, self.ev(post, x, (), ())
+            if ret is _STOP:
+                return last
+        return ret
+
+    def acc(self, path, bucket, init):
+        key = (path, bucket)
+        if key not in self.accs:
+            self.accs[key] = init()
+        return self.accs[key]
+
+    def pure(self, n, x):
+        """steps whose result is a function of the one value they receive"""
+        k = n[0]
+        if k == 'plain':
+            return PLAINSTEPS[n[1]][1](x)
+        if k == 'wrap':
+            if n[1] == 'group':
+                # a Group nested in the chain is a complete Group of its own over the value it receives
+                if isinstance(x, (str, bytes, dict)) or not hasattr(x, '__iter__'):
+                    raise ValueError('generator: nested Group over %r' % (x,))
+                return GroupRun().run(n[2], list(x))
+            return WRAPSTEPS[n[1]][1](x)
+        if k == 'fold':
+            # Sum() below an aggregator of the same Group is an ordinary fold of the value it receives
+            return sum(x)
+        raise ValueError(n)
+
+    def ev(self, n, x, path, bucket):
+        k = n[0]
+        if k in ('plain', 'wrap', 'fold'):
+            return self.pure(n, x)
+        if k == 'T':
+            return x
+        if k == 'list':
+            r = self.ev(n[1], x, path + (0,), bucket)
+            acc = self.acc(path, bucket, list)
+            acc.append(r)
+            return acc
+        if k == 'dict':
+            key = x
+            for i, step in enumerate(n[1]):
+                key = self.ev(step, key, path + ('k', i), bucket)
+            r = self.ev(n[2], x, path + ('v',), bucket + (key,))
+            acc = self.acc(path, bucket, dict)
+            acc[key] = r
+            return acc
+        if k == 'agg':
+            key = (path, bucket)
+            init, step = AGGS[n[1]][1], AGGS[n[1]][2]
+            self.accs[key] = step(self.accs[key] if key in self.accs else init(), x)
+            return self.accs[key]
+        if k == 'aggsub':
+            # Sum(subspec) / Max-like aggregators with a sub-spec: aggregate subspec(item)
+            v = x
+            for i, step in enumerate(n[2]):
+                v = self.ev(step, v, path + (i,), bucket)
+            key = (path, bucket)
+            self.accs[key] = (self.accs[key] if key in self.accs else 0) + v
+            return self.accs[key]
+        if k == 'first':
+            key = (path, bucket)
+            if key in self.accs:
+                return _STOP
+            self.accs[key] = True
+            return x
+        if k == 'pipe':
+            cur = x
+            for i, step in enumerate(n[1]):
+                cur = self.ev(step, cur, path + (i,), bucket)
+            return cur
+        if k == 'switch':
+            for i, (key, val) in enumerate(n[1]):
+                try:
+                    self.ev(key, x, path + (i, 'k'), bucket)
+                except Err:
+                    continue
+                return self.ev(val, x, path + (i, 'v'), bucket)
+            raise Err('MatchError')
+        raise ValueError(n)
+
+
+def gc_build(n):
+    k = n[0]
+    if k == 'plain':
+        return PLAINSTEPS[n[1]][0]()
+    if k == 'wrap':
+        if n[1] == 'group':
+            return Group(gc_build(n[2]))
+        return WRAPSTEPS[n[1]][0]()
+    if k == 'fold':
+        return Sum()
+    if k == 'T':
+        return T
+    if k == 'list':
+        return [gc_build(n[1])]
+    if k == 'dict':
+        steps = [gc_build(c) for c in n[1]]
+        key = T if not steps else steps[0] if len(steps) == 1 else Pipe(*steps)
+        return {key: gc_build(n[2])}
+    if k == 'agg':
+        return AGGS[n[1]][0]()
+    if k == 'aggsub':
+        steps = [gc_build(c) for c in n[2]]
+        return Sum(steps[0] if len(steps) == 1 else Pipe(*steps))
+    if k == 'first':
+        return gg.First()
+    if k == 'pipe':
+        return Pipe(*[gc_build(c) for c in n[1]])
+    if k == 'switch':
+        return Switch([(gc_build(a), gc_build(b)) for a, b in n[1]])
+    raise ValueError(n)
+
+
+def gc_accumulates(n):
+    """does evaluating this node update an accumulator of the Group it is (directly) part of"""
+    k = n[0]
+    if k in ('list', 'dict', 'agg', 'aggsub'):
+        return True
+    if k == 'pipe':
+        return any(gc_accumulates(c) for c in n[1])
+    if k == 'switch':
+        return any(gc_accumulates(b) for _, b in n[1])
+    return False
+
+
+def gen_gc_step(draw, kind, d, allow_fail=True):
+    """one step whose result depends on its input only; -> (node, output kind)"""
+    S_ = st.sampled_from
+    opts = [('plain', nm) for nm, v in sorted(PLAINSTEPS.items()) if kind in v[2]]
+    wraps = [('wrap', nm) for nm, v in sorted(WRAPSTEPS.items()) if kind in v[2] and (allow_fail or nm != 'match-fail')]
+    opts += wraps + wraps
+    if kind == 'ints' and d > 0:
+        opts += [('wrap', 'group')] * 4
+    what, nm = draw(S_(opts))
+    if what == 'plain':
+        return ['plain', nm], PLAINSTEPS[nm][3](kind)
+    if nm == 'group':
+        post, okind = gen_gc_post(draw, 'num', d - 1, top=True)
+        return ['wrap', 'group', post], okind
+    return ['wrap', nm], WRAPSTEPS[nm][3](kind)
+
+
+def gen_gc_steps(draw, kind, d, lo, hi, allow_fail=True):
+    steps = []
+    for _ in range(draw(st.sampled_from(range(lo, hi + 1)))):
+        node, kind = gen_gc_step(draw, kind, d, allow_fail)
+        steps.append(node)
+    return steps, kind
+
+
+def gen_gc_key(draw, kind, d):
+    """the key spec of a bucketing dict: steps giving a hashable value"""
+    S_ = st.sampled_from
+    if kind == 'num':
+        return draw(S_([[], [['plain', 't-mod2']], [['wrap', 'fill-T']], [['plain', 'fn-inc'], ['wrap', 'match-num']]]))
+    if kind == 'row':
+        return draw(S_([[['plain', 't-n']], [['wrap', 'auto-n']], [['wrap', 'auto-chain']], [['plain', 't-vals'], ['wrap', 'group', ['agg', 'sum']]],
+                        [['wrap', 'match-row'], ['wrap', 'fill-n']]]))
+    if kind == 'ints':
+        return draw(S_([[['plain', 'fn-len']], [['wrap', 'auto-sum']], [['wrap', 'group', ['agg', 'max']]], [['wrap', 'group', ['first']]]]))
+    return None
+
+
+def gen_gc_post(draw, kind, d, top=False):
+    """a Group-mode spec for items of `kind`; -> (node, kind of the value it returns per item)"""
+    S_ = st.sampled_from
+    opts = ['list', 'list', 'agg']
+    if kind != 'other':
+        opts += ['dict']
+    if kind in ('row', 'ints'):
+        opts += ['aggsub']
+    if d > 0:
+        opts += ['pipe', 'pipe', 'pipe', 'switch']
+    if top and kind == 'num':
+        opts += ['first']
+    what = draw(S_(opts))
+    if what == 'first':
+        return ['first'], 'num'
+    if what == 'agg':
+        return ['agg', draw(S_(['sum', 'max', 'min', 'count'] if kind == 'num' else ['count']))], 'num'
+    if what == 'list':
+        if d > 0 and draw(S_([True, False, False])):
+            elem, ek = gen_gc_post(draw, kind, d - 1)
+            if elem[0] != 'dict':                 # (a dict inside a list is refused in Group mode)
+                return ['list', elem], 'other'
+        steps, ek = gen_gc_steps(draw, kind, d - 1, 0, 1)
+        elem = ['T'] if not steps else steps[0]
+        return ['list', elem], ('ints' if ek == 'num' else 'other')
+    if what == 'dict':
+        val, _ = gen_gc_post(draw, kind, d - 1)
+        return ['dict', gen_gc_key(draw, kind, d), val], 'other'
+    if what == 'aggsub':
+        # the aggregator's sub-spec: a chain down to a number; Sum() inside it is a plain fold
+        steps = [['plain', 't-vals']] if kind == 'row' else []
+        tail = draw(S_(['group-sum', 'group-list-fold', 'fold', 'auto-sum', 'group-max', 'fill-fold']))
+        steps += {'group-sum': [['wrap', 'group', ['agg', 'sum']]],
+                  'group-max': [['wrap', 'group', ['agg', 'max']], ['wrap', 'match-num']],
+                  'group-list-fold': [['wrap', 'group', ['list', ['T']]], ['fold']],
+                  'fold': [['fold']],
+                  'fill-fold': [['wrap', 'fill-T'], ['fold']],
+                  'auto-sum': [['wrap', 'auto-sum']]}[tail]
+        return ['aggsub', 'sum', steps], 'num'
+    if what == 'pipe':
+        steps, k2 = gen_gc_steps(draw, kind, d, 1, 2)
+        last, ok = gen_gc_post(draw, k2, d - 1)
+        return ['pipe', steps + [last]], ok
+    cases = []
+    oks = set()
+    for _ in range(draw(S_([1, 1, 2]))):
+        key, _k = gen_gc_step(draw, kind, d)
+        val, ok = gen_gc_post(draw, kind, d - 1)
+        cases.append([key, val])
+        oks.add(ok)
+    return ['switch', cases], (oks.pop() if len(oks) == 1 else 'other')
+
+
+def gen_gc_nested(draw):
+    """constructed class: T['vals'] -> Group(<inner>) -> <a step that accumulates in the enclosing Group>, chained by a Pipe
+    or as key and value of a Switch case, at top level / below a bucket / as the element of a list"""
+    S_ = st.sampled_from
+    inner, ikind = gen_gc_post(draw, 'num', draw(S_([0, 0, 1])), top=True)
+    inner_step = ['wrap', 'group', inner]
+    d = draw(S_([0, 0, 1]))
+    via = draw(S_(['pipe', 'pipe', 'switch', 'switch-pipe', 'pipe-more', 'aggsub-fold']))
+    if via == 'aggsub-fold':
+        # below an aggregator Sum() is a plain fold - also after a nested Group, which has aggregators of its own
+        inner = draw(S_([['list', ['T']], ['list', ['plain', 'fn-inc']], ['list', ['wrap', 'fill-T']]]))
+        steps = [['plain', 't-vals'], ['wrap', 'group', inner]]
+        if draw(S_([True, False, False])):
+            steps.append(['wrap', draw(S_(['match-ints', 'auto-each', 'fill-T']))])
+        chain = ['aggsub', 'sum', steps + [['fold']]]
+    elif via == 'pipe':
+        post, _ = gen_gc_post(draw, ikind, d)
+        chain = ['pipe', [['plain', 't-vals'], inner_step, post]]
+    elif via == 'pipe-more':
+        mid, k2 = gen_gc_steps(draw, ikind, 0, 1, 1, allow_fail=False)
+        post, _ = gen_gc_post(draw, k2, d)
+        chain = ['pipe', [['plain', 't-vals'], inner_step] + mid + [post]]
+    elif via == 'switch':
+        post, _ = gen_gc_post(draw, 'ints', d)
+        cases = [[inner_step, post]]
+        if draw(S_([True, False])):
+            cases.insert(0, [['wrap', 'match-fail'], ['list', ['T']]])
+        chain = ['pipe', [['plain', 't-vals'], ['switch', cases]]]
+    else:
+        post, _ = gen_gc_post(draw, 'row', d)
+        chain = ['switch', [[['pipe', [['plain', 't-vals'], inner_step]], post]]]
+    around = draw(S_(['top', 'top', 'bucket', 'list']))
+    if around == 'bucket':
+        return ['dict', gen_gc_key(draw, 'row', 1), chain]
+    if around == 'list' and chain[0] != 'dict':
+        return ['list', chain]
+    return chain
+
+
+def gen_groupchain(draw):
+    S_ = st.sampled_from
+    nrows = draw(S_([0, 1, 2, 2, 3, 3, 4]))
+    rows = [[draw(S_([0, 1, 2])), draw(st.lists(S_(range(5)), min_size=1, max_size=3))] for _ in range(nrows)]
+    form = draw(S_(['free', 'free', 'nested', 'nested', 'nested']))
+    if form == 'nested':
+        spec = gen_gc_nested(draw)
+    else:
+        spec, _ = gen_gc_post(draw, 'row', draw(S_([1, 2, 2, 3])))
+    return {'rows': rows, 'spec': spec}
+
+
+def gc_chain_classes(n, acc, in_chain_after=None):
+    """labels: which mode wrapper is followed, in the same chain, by a step that accumulates in the enclosing Group"""
+    k = n[0]
+    if k == 'pipe':
+        for i, c in enumerate(n[1]):
+            if c[0] == 'wrap' and any(gc_accumulates(later) for later in n[1][i + 1:]):
+                acc.add('%s-then-accumulating-step' % ('nested-group' if c[1] == 'group' else c[1].split('-')[0]))
+            gc_chain_classes(c, acc)
+    elif k == 'switch':
+        for key, val in n[1]:
+            wrappers = [key] if key[0] == 'wrap' else [c for c in key[1] if c[0] == 'wrap'] if key[0] == 'pipe' else []
+            for w in wrappers:
+                if gc_accumulates(val):
+                    acc.add('%s-key-then-accumulating-value' % ('nested-group' if w[1] == 'group' else w[1].split('-')[0]))
+            gc_chain_classes(key, acc)
+            gc_chain_classes(val, acc)
+    elif k == 'aggsub':
+        for i, c in enumerate(n[2]):
+            if c[0] == 'wrap' and c[1] == 'group' and any(later[0] == 'fold' for later in n[2][i + 1:]):
+                acc.add('nested-group-then-fold-below-aggregator')
+            gc_chain_classes(c, acc)
+    elif k == 'list':
+        gc_chain_classes(n[1], acc)
+    elif k == 'dict':
+        for c in n[1]:
+            gc_chain_classes(c, acc)
+        gc_chain_classes(n[2], acc)
+    elif k == 'wrap' and n[1] == 'group':
+        gc_chain_classes(n[2], acc)
+    return acc
+
+
+def typed_eq(a, b):
+    if type(a) is not type(b):
+        return False
+    if isinstance(a, (list, tuple)):
+        return len(a) == len(b) and all(typed_eq(x, y) for x, y in zip(a, b))
+    if isinstance(a, dict):
+        return list(a.keys()) == list(b.keys()) and all(typed_eq(a[k], b[k]) for k in a)
+    return a == b
+
+
+def check_groupchain(recipe, ctx):
+    rows = [{'n': n, 'vals': list(vals)} for n, vals in recipe['rows']]
+    tree = recipe['spec']
+    snap = tg.snapshot(rows)
+    try:
+        exp = ('ok', GroupRun().run(tree, rows))
+    except Err as e:
+        exp = ('err', e.cat)
+    spec = Group(gc_build(tree))
+    classes = gc_chain_classes(tree, set())
+    many = len(rows) >= 2
+    ctx.label('exp-' + exp[0], 'rows-%s' % ('many' if many else len(rows)))
+    for c in sorted(classes):
+        ctx.label(c)
+        if many:
+            ctx.label(c + '/rows>=2')
+    if any(c.startswith('nested-group') for c in classes) and many:
+        ctx.label('nested-group-then-outer-step/rows>=2')
+    ctx.nontrivial(bool(classes) and many)
+    where = 'glom(%r, %r)' % (rows, spec)
+    try:
+        got = ('ok', glom.glom(rows, spec))
+    except GlomError as e:
+        got = ('err', category(e))
+    except Exception as e:
+        got = ('err', 'non-glom:' + type(e).__name__)
+    if exp[0] != got[0] or (exp[0] == 'err' and exp != got):
+        raise Mismatch('group-chain-outcome', '%s: expected %r, got %r' % (where, exp, got))
+    if exp[0] == 'ok' and not typed_eq(exp[1], got[1]):
+        raise Mismatch('group-chain-value', '%s: expected %r, got %r' % (where, exp[1], got[1]))
+    d = tg.snapshot_diff(snap, tg.snapshot(rows))
+    if d:
+        raise Mismatch('target-mutated', '%s: %s' % (where, d))
+    ctx.outcome([repr(spec)[:160], exp if exp[0] == 'err' else repr(exp[1])[:80]])
+
+
 SUBS = [
     Sub('modes', check_modes, gen=gen_modes, quick=5000, thorough=20000,
         floors={'wrapper-then-probe': 0.05, 'exp-ok': 0.15, 'exp-err': 0.15, 'star-with-failing-argument': 0.05}),
-    Sub('shape', check_shape, gen=gen_shape, quick=4000, thorough=15000, floors={'cyclic': 0.05, 'position-fill': 0.03}),
+    Sub('groupchain', check_groupchain, gen=gen_groupchain, quick=1200, thorough=8000,
+        floors={'nested-group-then-accumulating-step/rows>=2': 0.10, 'nested-group-key-then-accumulating-value/rows>=2': 0.05,
+                'nested-group-then-fold-below-aggregator/rows>=2': 0.03, 'auto-then-accumulating-step/rows>=2': 0.03,
+                'fill-then-accumulating-step/rows>=2': 0.05, 'match-then-accumulating-step/rows>=2': 0.025,
+                'exp-ok': 0.5, 'exp-err': 0.015}),
+    Sub('shape', check_shape, gen=gen_shape, quick=4000, thorough=15000, floors={'cyclic': 0.05, 'position-fill': 0.03, 'modal-leaf-in-match-default-ok': 0.025, 'modal-leaf-in-argument': 0.25,
+                'outer-auto': 0.07, 'outer-fill': 0.065, 'outer-match': 0.06, 'outer-group': 0.055, 'exp-err': 0.05}),
 ]
